@@ -238,6 +238,7 @@ def observe(cfg):
         xin.flags.writeable = False
     # ---------------- reverse mode
     RR = None
+    val = None
     v = {"raised": None, "bad": [], "nbad": 0, "struct": None, "primal_eq": True, "box": False}
     try:
         vjp, val = make_vjp(f)(xin)
@@ -296,6 +297,14 @@ def observe(cfg):
                     v["late"] = "re-applying the first cotangent after %d calls gives a different result" % ncall
             except Exception as ex:     # noqa
                 v["late"] = "re-applying the first cotangent raised %s" % type(ex).__name__
+        if info.get("missing") and not v.get("late"):
+            try:
+                hm, xm = info["missing"]
+                vm, _vm = make_vjp(hm)(xm)
+                vm(onp.ones(onp.shape(_vm)) if onp.ndim(_vm) else 1.0)
+                v["late"] = "an argument without a registered rule was differentiated without raising (a missing rule raises)"
+            except Exception:     # noqa
+                pass
         if FAULTS and rows and not v.get("late"):
             why = inject_faults(vjp, first_g, rows[0])
             if why:
@@ -402,6 +411,20 @@ def observe(cfg):
             adj["lin_jvp"] = int(onp.sum(onp.abs(realify(t) - rhs) / onp.maximum(1.0, onp.abs(rhs)) > (1e-3 if single else 1e-10)))
     except Exception as ex:     # noqa
         adj["lin_error"] = type(ex).__name__
+    # adjointness seen through a linear functional: G(x) = sum(f(x)) - forward mode sums the tangent it was handed (a tangent of the wrong
+    # shape that merely broadcasts against the output is summed short), reverse mode pulls the ones back: <1, JVP_G v> = <VJP_G 1, v>
+    try:
+        if v["raised"] is None and j["raised"] is None and not kink and not onp.iscomplexobj(y0) and not onp.iscomplexobj(x) and m > 0 and n > 0:
+            vdir = unreal(onp.cos(onp.arange(n) * 0.9 + 0.4) + 1.2, x)
+            vdir = vdir if (onp.ndim(x) or isinstance(x, onp.ndarray)) else float(onp.real(vdir))
+            tG = float(make_jvp(lambda z: np.sum(f(z)))(xin)(vdir)[1])
+            gG = grad(lambda z: np.sum(f(z)))(xin)
+            pair = float(onp.sum(onp.asarray(gG, dtype=float) * onp.asarray(vdir, dtype=float)))
+            if abs(tG - pair) > (1e-3 if single else 1e-9) * max(1.0, abs(pair)):
+                adj["sum_pair_bad"] = 1
+                adj["sum_pairing"] = [tG, pair]
+    except Exception as ex:     # noqa
+        adj["sum_error"] = type(ex).__name__
     # ---------------- linearity as a *traced* function, at the origin: d/dg vjp(g) at g = 0 is vjp itself (and likewise for the JVP).
     # A rule that is numerically linear but cuts the dependence on g for special values of g (a mask on g == 0, a branch on its sign)
     # is exact at first order and silently wrong as soon as the cotangent is itself differentiated (nested / higher-order use).
@@ -443,6 +466,16 @@ def observe(cfg):
             pr["intact"] = bool(onp.array_equal(xin, frozen_src, equal_nan=True))
         if v.get("cot_written"):
             pr["intact"] = False          # a cotangent handed to the VJP function was modified
+        # after all the derivative calls: the value make_vjp handed back earlier is still the same (a rule must not write into the stored
+        # output of its node), and the function still evaluates to it (nor into the constants the function captured)
+        if v["raised"] is None and val is not None and not has_box(val):
+            if not (onp.shape(val) == onp.shape(y0) and onp.allclose(onp.asarray(val), y0, rtol=1e-12, atol=0, equal_nan=True)):
+                pr["intact"] = False
+                pr["written"] = "the value returned by make_vjp changed after the VJP function was called"
+        y_again = onp.asarray(info.get("f_numpy", f)(x))
+        if not (y_again.shape == onp.shape(y0) and onp.allclose(y_again, y0, rtol=1e-12, atol=0, equal_nan=True)):
+            pr["intact"] = False
+            pr["written"] = "the function evaluates differently after it was differentiated (a captured constant was modified)"
         # the primal under a depth-2 nesting (a forward trace inside a reverse trace)
         inner = lambda z: make_jvp(f)(z)(vspace(z).ones())[0]
         _vjp2, val2 = make_vjp(inner)(xin)
